@@ -46,7 +46,7 @@ func main() {
 			"states = distinct (implementation dump incl. journal entries and snapshot ids, model state incl. copy stack)",
 		Assumptions: []string{
 			"the start states are read correctly through the plain accessors of a freshly opened AccountDB (the model is initialised from them)",
-			"forward (revert-free) semantics of each mutator as written in model.go; a forward mismatch is reported under C04:forward:* and is a calibration error of the model unless shown otherwise",
+			"forward (revert-free) semantics of each mutator as written in model.go; a model mismatch in a history without RevertToSnapshot is outside the property: it is recorded in coverage (forward_deviation_*), never flagged",
 			"the leaf-level trie iterator used only to explain a root mismatch",
 			"Proposal002 active (balances are journaled storage slots of the bound token contract); dev genesis state",
 		},
@@ -62,7 +62,7 @@ func main() {
 
 // ---- start states --------------------------------------------------------------------------
 
-func boot() (gen, com *universe) {
+func boot() (gen, com, warm *universe) {
 	if err := node.Boot(node.ForksAllOn, true); err != nil {
 		fmt.Fprintln(os.Stderr, "boot:", err)
 		os.Exit(3)
@@ -99,6 +99,25 @@ func boot() (gen, com *universe) {
 		addr:  []common.Address{mk(1), S, K},
 		role:  []string{"absent", "storage-only", "contract"},
 		short: []string{"A", "S", "K"}}
+
+	// third start state: the AccountDB object that committed the state is used on (as the
+	// node does with its latest state object): account objects stay cached, one of them
+	// (created and self-destructed before the commit) is flagged deleted.
+	D := mk(4)
+	warm = &universe{name: "warm-committed-object", root: root, db: db,
+		addr:  []common.Address{mk(1), S, D},
+		role:  []string{"absent", "storage-only-cached", "deleted-object-cached"},
+		short: []string{"A", "S", "D"},
+		prep: func(st *account.AccountDB) {
+			st.SetData(S, slotKey(1), dataVal(0))
+			st.SetBalance(S, big.NewInt(20))
+			st.SetNonce(D, 3)
+			st.SetData(D, slotKey(1), dataVal(0))
+			st.Suicide(D)
+			if _, err := st.Commit(true); err != nil {
+				panic(err)
+			}
+		}}
 	return
 }
 
@@ -111,9 +130,17 @@ type slice struct {
 	depth int
 	ft    bool
 
-	m0   *model
-	memo map[string]*refRes
-	c    *fw.Ctx
+	m0    *model
+	okeys []string
+	memo  map[string]*refRes
+	c     *fw.Ctx
+}
+
+func (s *slice) init(c *fw.Ctx) {
+	s.c = c
+	s.memo = map[string]*refRes{}
+	s.m0 = initModel(s.u, s.ft)
+	s.okeys = obsKeys(s.u, s.ft)
 }
 
 func acctOps(a int, rich bool) []Op {
@@ -154,7 +181,19 @@ func cat(l ...[]Op) []Op {
 	return out
 }
 
-func buildSlices(thorough bool, gen, com *universe) []*slice {
+func coreOps(a int) []Op {
+	return []Op{{K: kSetNonce, A: a, V: 7}, {K: kSetData, A: a, S: 1, V: 1}, {K: kRemoveData, A: a, S: 1}, {K: kSetCode, A: a, V: 1},
+		{K: kAddBalance, A: a, V: 5}, {K: kSuicide, A: a}, {K: kCreate, A: a}}
+}
+
+func deepOps(a int) []Op {
+	return []Op{{K: kSetNonce, A: a, V: 7}, {K: kSetData, A: a, S: 1, V: 1}, {K: kSuicide, A: a}, {K: kCreate, A: a}}
+}
+
+// buildSlices: the explored space is the union of the slices; each slice is the set of ALL
+// valid histories up to its depth over its alphabet (the full alphabet to full depth is out
+// of reach: 60 letters).  Order = order of execution (a time cap cuts the tail).
+func buildSlices(thorough bool, gen, com, warm *universe) []*slice {
 	var out []*slice
 	add := func(name string, u *universe, depth int, ft bool, ops []Op) {
 		out = append(out, &slice{name: u.name + "/" + name, u: u, ops: ops, depth: depth, ft: ft})
@@ -165,27 +204,52 @@ func buildSlices(thorough bool, gen, com *universe) []*slice {
 		}
 		return q
 	}
-	for _, u := range []*universe{com, gen} {
-		// every account-level letter on all three addresses plus the cross-address transfers
-		tr := []Op{{K: kTransfer, A: 1, B: 0, V: 4}, {K: kTransfer, A: 0, B: 1, V: 4}, {K: kTransfer, A: 1, B: 2, V: 4}, {K: kTransfer, A: 2, B: 1, V: 4}}
-		add("accounts3", u, d(4, 5), false, cat(acctOps(0, false), acctOps(1, false), acctOps(2, false), tr, ctlOps()))
-		// one address at a time, richer letters (second values, GetCommittedState), deeper
+	us := []*universe{com, gen}
+	// one address at a time, the core letters of every journal-entry kind, deep
+	for _, u := range us {
+		for a := 0; a < 3; a++ {
+			add("core-"+u.short[a], u, d(5, 6), false, cat(coreOps(a), ctlOps()))
+		}
+	}
+	// one address at a time, all account letters (second values, GetCommittedState, balance
+	// arithmetic, transfers with a neighbour)
+	for _, u := range us {
 		for a := 0; a < 3; a++ {
 			b := (a + 1) % 3
 			x := []Op{{K: kAddBalance, A: b, V: 5}, {K: kTransfer, A: a, B: b, V: 4}, {K: kTransfer, A: b, B: a, V: 4}}
-			add("account-"+u.short[a], u, d(5, 6), false, cat(acctOps(a, true), x, ctlOps()))
+			add("account-"+u.short[a], u, d(4, 5), false, cat(acctOps(a, true), x, ctlOps()))
 		}
-		// refund, logs, access list, transient storage, interleaved with a few account letters
+	}
+	// refund, logs, access list, transient storage, interleaved with a few account letters
+	for _, u := range us {
 		y := []Op{{K: kSetNonce, A: 0, V: 7}, {K: kSetData, A: 1, S: 1, V: 1}, {K: kSuicide, A: 1}}
-		add("side", u, d(5, 6), false, cat(sideOps(), y, ctlOps()))
+		add("side", u, d(4, 5), false, cat(sideOps(), y, ctlOps()))
+	}
+	// every account-level letter on all three addresses plus cross-address transfers
+	for _, u := range us {
+		tr := []Op{{K: kTransfer, A: 1, B: 0, V: 4}, {K: kTransfer, A: 0, B: 1, V: 4}, {K: kTransfer, A: 1, B: 2, V: 4}, {K: kTransfer, A: 2, B: 1, V: 4}}
+		add("accounts3", u, d(3, 4), false, cat(acctOps(0, false), acctOps(1, false), acctOps(2, false), tr, ctlOps()))
 	}
 	if thorough {
 		// exported FT mutators on a token name without binding (account's own storage, touch())
-		for _, u := range []*universe{com, gen} {
+		for _, u := range us {
 			for a := 0; a < 3; a++ {
-				y := []Op{{K: kSetNonce, A: a, V: 7}, {K: kIncNonce, A: a}, {K: kSetData, A: a, S: 1, V: 1}, {K: kRemoveData, A: a, S: 1},
-					{K: kSetCode, A: a, V: 1}, {K: kSuicide, A: a}, {K: kCreate, A: a}, {K: kAddBalance, A: a, V: 5}}
-				add("ft-"+u.short[a], u, 6, true, cat(ftOps(a), y, ctlOps()))
+				y := []Op{{K: kSetNonce, A: a, V: 7}, {K: kSetData, A: a, S: 1, V: 1}, {K: kSetCode, A: a, V: 1}, {K: kSuicide, A: a}, {K: kCreate, A: a}, {K: kAddBalance, A: a, V: 5}}
+				dep := 5
+				if u == gen {
+					dep = 4
+				}
+				add("ft-"+u.short[a], u, dep, true, cat(ftOps(a), y, ctlOps()))
+			}
+		}
+		// the committing AccountDB object itself as start state
+		for a := 0; a < 3; a++ {
+			add("core-"+warm.short[a], warm, 4, false, cat(coreOps(a), ctlOps()))
+		}
+		// few letters, depth 7 (nesting 3 needs at least 3 snapshots + 3 reverts)
+		for _, u := range us {
+			for a := 0; a < 3; a++ {
+				add("deep-"+u.short[a], u, 7, false, cat(deepOps(a), ctlOps()))
 			}
 		}
 	}
@@ -200,7 +264,7 @@ type runRes struct {
 	pval     string
 	at       int // index of the op that panicked, len(h) = in the final observation / root
 	dump     string
-	obs      []kv
+	obs      []string
 	root     common.Hash
 	undone   int
 	idsBad   string
@@ -208,8 +272,9 @@ type runRes struct {
 }
 
 const (
-	modeObs  = 0 // history, dump, full observation, IntermediateRoot(true)
-	modeCold = 1 // history, IntermediateRoot(true)
+	modeObs     = 0 // history, dump, full observation, IntermediateRoot(true)
+	modeCold    = 1 // history, IntermediateRoot(true)
+	modeObsOnly = 2 // history, dump, full observation
 )
 
 func (s *slice) runImpl(h []Op, mode int, wantLeaves bool) (r runRes) {
@@ -229,11 +294,13 @@ func (s *slice) runImpl(h []Op, mode int, wantLeaves bool) (r runRes) {
 		if fmt.Sprint(ids) != fmt.Sprint(x.live) {
 			r.idsBad = fmt.Sprintf("ids the caller may still revert to %v, ids the AccountDB accepts %v", x.live, ids)
 		}
-		if mode == modeObs {
+		if mode != modeCold {
 			r.dump = account.VerifDump(x.st, true)
 			r.obs = observe(x.st, s.u, s.ft)
 		}
-		r.root = x.st.IntermediateRoot(true)
+		if mode != modeObsOnly {
+			r.root = x.st.IntermediateRoot(true)
+		}
 		if wantLeaves {
 			r.leaves = account.VerifLeaves(x.st)
 		}
@@ -249,19 +316,20 @@ func (s *slice) runImpl(h []Op, mode int, wantLeaves bool) (r runRes) {
 
 type refRes struct {
 	ok       bool
-	obs      []kv
+	obs      string // answers joined by \x00
 	rootWarm common.Hash
 	rootCold common.Hash
 }
 
-func (s *slice) ref(red []Op, key string) *refRes {
+func (s *slice) ref(red []Op) *refRes {
+	key := opsKey(red)
 	if r, ok := s.memo[key]; ok {
 		return r
 	}
 	a := s.runImpl(red, modeObs, false)
 	b := s.runImpl(red, modeCold, false)
-	r := &refRes{ok: !a.panicked && !b.panicked, obs: a.obs, rootWarm: a.root, rootCold: b.root}
-	if len(s.memo) > 400000 {
+	r := &refRes{ok: !a.panicked && !b.panicked, obs: strings.Join(a.obs, "\x00"), rootWarm: a.root, rootCold: b.root}
+	if len(s.memo) > 40000 {
 		s.memo = map[string]*refRes{}
 	}
 	s.memo[key] = r
@@ -303,17 +371,18 @@ func (s *slice) walk(h []Op) (m *model, red []Op, revFam []string, hasRevert, ha
 }
 
 func opsKey(h []Op) string {
-	var b bytes.Buffer
+	b := make([]byte, 0, len(h)*6)
 	for _, o := range h {
-		fmt.Fprintf(&b, "%s,%d,%d,%d,%d;", o.K, o.A, o.B, o.S, o.V)
+		b = append(b, o.K...)
+		b = append(b, byte('0'+o.A), byte('0'+o.B), byte('0'+o.S), byte('0'+o.V), ';')
 	}
-	return b.String()
+	return string(b)
 }
 
 // ---- evaluation of one history ----------------------------------------------------------------------
 
 type failure struct {
-	Class  string // accessor | forward | root-differs | panic | snapshot-ids
+	Class  string // accessor | root-differs | panic | snapshot-ids
 	Detail string
 	Role   string
 	Msg    string
@@ -328,6 +397,7 @@ type nodeRes struct {
 	hasRevert bool
 	undone    int
 	revFam    []string
+	forward   []string // forward-semantics deviations from the model (history without revert)
 }
 
 func (s *slice) roleOfName(n string) string {
@@ -340,7 +410,7 @@ func (s *slice) roleOfName(n string) string {
 }
 
 func (s *slice) eval(h []Op) *nodeRes {
-	m, red, revFam, hasRevert, hasSnap, ok := s.walk(h)
+	m, red, revFam, hasRevert, _, ok := s.walk(h)
 	if !ok {
 		return nil
 	}
@@ -352,8 +422,15 @@ func (s *slice) eval(h []Op) *nodeRes {
 			res.fails = append(res.fails, f)
 		}
 	}
-	a := s.runImpl(h, modeObs, false)
-	b := s.runImpl(h, modeCold, false)
+	// a history without RevertToSnapshot only needs the observation (model oracle, state key);
+	// one with a revert is run warm (observation, then root) and cold (root only).
+	var a, b runRes
+	if hasRevert {
+		a = s.runImpl(h, modeObs, false)
+		b = s.runImpl(h, modeCold, false)
+	} else {
+		a = s.runImpl(h, modeObsOnly, false)
+	}
 	res.undone = a.undone
 	sum := sha256.Sum256([]byte(a.dump + "\x00" + m.String()))
 	copy(res.key[:], sum[:16])
@@ -372,42 +449,44 @@ func (s *slice) eval(h []Op) *nodeRes {
 	if a.panicked || b.panicked {
 		return res
 	}
-	if !hasSnap {
-		// a revert-free, snapshot-free history is its own reference
-		if _, ok := s.memo[opsKey(h)]; !ok {
-			s.memo[opsKey(h)] = &refRes{ok: true, obs: a.obs, rootWarm: a.root, rootCold: b.root}
-		}
-	}
-	// oracle 1: the reference model
+	// oracle 1: the reference model.  In a history without RevertToSnapshot a mismatch is a
+	// deviation of the forward semantics (outside the property: recorded, not flagged).
 	mo := m.observe(s.u, s.ft)
-	for _, e := range a.obs {
-		want, ok := mo[e.k]
-		if !ok || want == e.v {
-			continue
-		}
-		name, who := accessorOf(e.k)
-		if hasRevert {
-			fail(failure{Class: "accessor", Detail: name + "-after-revert", Role: s.roleOfName(who),
-				Msg: fmt.Sprintf("%s = %s, reference model says %s", e.k, e.v, want)})
-		} else {
-			fail(failure{Class: "forward", Detail: name, Role: s.roleOfName(who),
-				Msg: fmt.Sprintf("(no revert in the history) %s = %s, reference model says %s", e.k, e.v, want)})
+	modelMis := map[int]string{}
+	for i, v := range a.obs {
+		if want := mo[i]; want != undef && want != v {
+			modelMis[i] = want
+			if !hasRevert {
+				res.forward = append(res.forward, fmt.Sprintf("%s = %s, reference model says %s", s.okeys[i], v, want))
+			}
 		}
 	}
 	if !hasRevert {
 		return res
 	}
-	// oracle 2: the same AccountDB code on the history without its reverted segments
-	ref := s.ref(red, opsKey(red))
+	// oracle 2: the same AccountDB code on the history without its reverted segments.
+	// model(h) == model(reduced h) by construction, so a model mismatch on h that is not also
+	// a differential mismatch is a forward deviation of the reduced (revert-free) history.
+	ref := s.ref(red)
 	if !ref.ok {
 		return res
 	}
-	for i, e := range a.obs {
-		if ref.obs[i].v != e.v {
-			name, who := accessorOf(e.k)
-			fail(failure{Class: "accessor", Detail: name + "-after-revert", Role: s.roleOfName(who),
-				Msg: fmt.Sprintf("%s = %s, but %s when the reverted calls are never made", e.k, e.v, ref.obs[i].v)})
+	if ref.obs != strings.Join(a.obs, "\x00") {
+		ro := strings.Split(ref.obs, "\x00")
+		for i, v := range a.obs {
+			if ro[i] != v {
+				name, who := accessorOf(s.okeys[i])
+				msg := fmt.Sprintf("%s = %s, but %s when the reverted calls are never made", s.okeys[i], v, ro[i])
+				if want, ok := modelMis[i]; ok {
+					msg += fmt.Sprintf(" (reference model: %s)", want)
+					delete(modelMis, i)
+				}
+				fail(failure{Class: "accessor", Detail: name + "-after-revert", Role: s.roleOfName(who), Msg: msg})
+			}
 		}
+	}
+	if len(modelMis) > 0 {
+		s.c.Count("model_mismatch_explained_by_forward_deviation", 1)
 	}
 	if b.root != ref.rootCold {
 		fail(s.explainRoot(h, red, modeCold))
@@ -509,11 +588,7 @@ type caseT struct {
 }
 
 func sigOf(f failure, revFam []string) string {
-	s := "C04:" + f.key()
-	if f.Class != "forward" {
-		s += ":rev{" + strings.Join(revFam, ",") + "}"
-	}
-	return s
+	return "C04:" + f.key() + ":rev{" + strings.Join(revFam, ",") + "}"
 }
 
 func (s *slice) report(c *fw.Ctx, h []Op, res *nodeRes, minimise bool) {
@@ -568,6 +643,8 @@ type bfs struct {
 	n       int64
 	stop    bool
 	sampled int
+
+	fwdNoted map[string]bool
 }
 
 func (b *bfs) hist(idx []byte) []Op {
@@ -594,6 +671,14 @@ func (b *bfs) visit(idx []byte, own bool) *model {
 		c.Trace(1)
 		if !dup {
 			c.State(1)
+		}
+		for _, fd := range res.forward {
+			name, _ := accessorOf(fd[:strings.Index(fd, " = ")])
+			c.Count("forward_deviation_not_C04:"+name, 1)
+			if !b.fwdNoted[name] {
+				b.fwdNoted[name] = true
+				c.Note("forward_deviation_example:"+name, fmt.Sprintf("start=%s history=%v: %s", s.u.name, histStr(s.u, h), fd))
+			}
 		}
 		switch {
 		case len(res.fails) > 0:
@@ -641,10 +726,8 @@ func (b *bfs) children(idx []byte, m *model, f func(child []byte)) {
 }
 
 func (s *slice) explore(c *fw.Ctx, caseIdx *int64) {
-	s.c = c
-	s.memo = map[string]*refRes{}
-	s.m0 = initModel(s.u, s.ft)
-	b := &bfs{s: s, c: c, visited: map[[16]byte]struct{}{}}
+	s.init(c)
+	b := &bfs{s: s, c: c, visited: map[[16]byte]struct{}{}, fwdNoted: map[string]bool{}}
 	mine := func() bool { v := c.Mine(*caseIdx); *caseIdx++; return v }
 
 	type item struct {
@@ -698,9 +781,9 @@ func run(c *fw.Ctx) {
 		pprof.StartCPUProfile(f)
 		defer pprof.StopCPUProfile()
 	}
-	gen, com := boot()
+	gen, com, warm := boot()
 	var caseIdx int64
-	for _, s := range buildSlices(c.Thorough(), gen, com) {
+	for _, s := range buildSlices(c.Thorough(), gen, com, warm) {
 		if c.Expired() {
 			c.Cap(fmt.Sprintf("time cap: slice %s not started", s.name))
 			continue
@@ -716,18 +799,24 @@ func replay(c *fw.Ctx, raw json.RawMessage) {
 		fmt.Fprintln(os.Stderr, "bad case:", err)
 		os.Exit(2)
 	}
-	gen, com := boot()
+	gen, com, warm := boot()
 	u := gen
-	if k.Start == com.name {
+	switch k.Start {
+	case com.name:
 		u = com
+	case warm.name:
+		u = warm
 	}
-	s := &slice{name: "replay", u: u, depth: len(k.Ops), ft: k.FT, c: c, memo: map[string]*refRes{}}
-	s.m0 = initModel(u, k.FT)
+	s := &slice{name: "replay", u: u, depth: len(k.Ops), ft: k.FT}
+	s.init(c)
 	res := s.eval(k.Ops)
 	if res == nil {
 		fmt.Fprintln(os.Stderr, "the recorded history is not valid")
 		os.Exit(2)
 	}
 	fmt.Printf("history: %v\n", histStr(u, k.Ops))
+	for _, fd := range res.forward {
+		fmt.Printf("forward deviation (not C04): %s\n", fd)
+	}
 	s.report(c, k.Ops, res, false)
 }
